@@ -149,6 +149,26 @@ func GetSegBaseDirFromFilename(filename string) (string, error) {
 	return filename[:pos], nil
 }
 
+// GetSegBaseDirFromSegKey returns the base directory of the segment with the
+// given segkey. A segkey is the segment's base directory with the suffix
+// repeated (see config.GetSegKey), so unlike GetSegBaseDirFromFilename this
+// does not search for "/final/" and does not depend on what the data path, the
+// host id or the index are called.
+func GetSegBaseDirFromSegKey(segkey string) (string, error) {
+	pos := strings.LastIndex(segkey, "/")
+	if pos <= 0 {
+		return "", TeeErrorf("GetSegBaseDirFromSegKey: %v is not a segkey", segkey)
+	}
+
+	suffix := segkey[pos+1:]
+	segBaseDir := segkey[:pos+1]
+	if suffix == "" || filepath.Base(segBaseDir) != suffix {
+		return "", TeeErrorf("GetSegBaseDirFromSegKey: %v is not a segkey", segkey)
+	}
+
+	return segBaseDir, nil
+}
+
 func GetSegKeyFromFilename(filename string) (string, error) {
 	segbaseDir, err := GetSegBaseDirFromFilename(filename)
 	if err != nil {
